@@ -92,6 +92,37 @@ theorem no_growth_with_room_hash (hash : Nat → Nat) (c : Nat) (hc0 : 0 < c)
     (putAll items (withCapacity hash c)).resizes = 0 :=
   Seq.no_growth_with_room_hash hash c hc0 hc _ items rfl hlen hbins
 
+/-- **`reserve`: room as requested.** After `reserve(a)` on a map holding `len m` entries
+(`len m + a < 2^29`) the table exists and the growth threshold is strictly above `count + a`.
+No hypothesis on the table length: if `try_presize` stopped because the table is at its maximum
+length `2^30`, the threshold is `3 * 2^28 > 2^29`. -/
+theorem reserve_threshold_room (m : Map) (hg : Good m) (a : Nat)
+    (hs : len m + a < MAXIMUM_CAPACITY / 2) :
+    (reserve a m).table ≠ none ∧ (reserve a m).count + (a : Int) < (reserve a m).sizeCtl :=
+  Seq.reserve_threshold_room a hg hs
+
+/-- **a map on which `reserve(a)` returned holds a further `a` entries without growing its
+table**: at most `a` inserts after `reserve(a)` (`len m + a < 2^29`), none of which meets a crowded
+bin, never resize; the table keeps the length `reserve` left it with. -/
+theorem no_growth_after_reserve (m : Map) (hg : Good m) (a : Nat)
+    (hs : len m + a < MAXIMUM_CAPACITY / 2)
+    (items : List (Nat × Nat × Nat × Nat)) (hlen : items.length ≤ a)
+    (hbins : ∀ pre it post, items = pre ++ it :: post →
+      treeifyCond (putBinCount it.1 (putAll pre (reserve a m))) = false) :
+    tableLen (putAll items (reserve a m)) = tableLen (reserve a m) ∧
+    (putAll items (reserve a m)).resizes = (reserve a m).resizes :=
+  Seq.no_growth_after_reserve hg a hs items hlen hbins
+
+/-- … in particular when no bin ever holds 8 (`TREEIFY_THRESHOLD`) nodes -/
+theorem no_growth_after_reserve_bins (m : Map) (hg : Good m) (a : Nat)
+    (hs : len m + a < MAXIMUM_CAPACITY / 2)
+    (items : List (Nat × Nat × Nat × Nat)) (hlen : items.length ≤ a)
+    (hbins : ∀ pre it post, items = pre ++ it :: post →
+      BinsBelow TREEIFY_THRESHOLD (putAll pre (reserve a m))) :
+    tableLen (putAll items (reserve a m)) = tableLen (reserve a m) ∧
+    (putAll items (reserve a m)).resizes = (reserve a m).resizes :=
+  Seq.no_growth_after_reserve_bins hg a hs items hlen hbins
+
 /-- **the table length is a power of two `≤ 2^30`** (or the table does not exist yet) -/
 theorem table_len_pow2 (m : Map) (hw : WF m) :
     m.table = none ∨ ((∃ k, tableLen m = 2 ^ k) ∧ tableLen m ≤ MAXIMUM_CAPACITY) := by
@@ -143,5 +174,39 @@ example (hash : Nat → Nat) :
     (fun i => Nat.lt_of_le_of_lt (List.length_filter_le _ _) (by decide))).1
 /-- removing all of them again does not change the length -/
 example : tableLen (run ex2 [.rm 1, .cip 2 (fun _ _ _ => .remove), .clear]).1 = 8 := by decide
+
+/-! ### `reserve(5)` on the 8-bin map holding 2 entries -/
+
+/-- the rounding of the request (`npow2` is defined by well-founded recursion, so `decide` does not
+evaluate it): `reserve(5)` with 2 entries asks for `npow2 (7 + 3 + 1) = 16` -/
+theorem reserve_5_ex2 : reserve 5 ex2 = tryPresize.go 16 64 ex2 := by
+  have h1 : len ex2 = 2 := by decide
+  have h2 : tryPresizeCap 7 = 16 := by simp [tryPresizeCap, npow2, npow2Go, MAXIMUM_CAPACITY]
+  unfold reserve tryPresize
+  rw [h1]
+  exact congrArg (fun r => tryPresize.go r 64 ex2) h2
+
+/-- it doubles the table twice (threshold 12 is below 16): 32 bins, threshold 24, still 2 entries -/
+example : tableLen (reserve 5 ex2) = 32 ∧ (reserve 5 ex2).sizeCtl = 24 ∧ (reserve 5 ex2).count = 2 ∧
+    (reserve 5 ex2).resizes = 2 := by
+  rw [reserve_5_ex2]; decide
+
+/-- the hypotheses of `no_growth_after_reserve` hold for five new keys, among them the insert
+that doubled the table of `ex2` above: after `reserve(5)` the table keeps its 32 bins -/
+example :
+    tableLen (putAll [(3, 0, 0, 0), (4, 0, 0, 0), (5, 0, 0, 0), (6, 0, 0, 0), (7, 0, 0, 0)]
+      (reserve 5 ex2)) = 32 := by
+  have h : tableLen (reserve 5 ex2) = 32 := by rw [reserve_5_ex2]; decide
+  rw [← h]
+  refine (no_growth_after_reserve ex2 ex2_good 5 (by decide) _ (by decide) ?_).1
+  intro pre it post he
+  rw [reserve_5_ex2]
+  match pre, he with
+  | [], he => cases he; decide
+  | [_], he => cases he; decide
+  | [_, _], he => cases he; decide
+  | [_, _, _], he => cases he; decide
+  | [_, _, _, _], he => cases he; decide
+  | _ :: _ :: _ :: _ :: _ :: _, he => simp at he
 
 end Flurry.C14
